@@ -43,6 +43,16 @@ func main() {
 		cmdAnchors(os.Args[2:])
 	case "ground":
 		cmdGround(os.Args[2:])
+	case "replay":
+		cmdReplay(os.Args[2:])
+	case "names":
+		e, err := loadEngine(repoDir, verifDir)
+		if err != nil {
+			fmt.Fprintln(os.Stderr, err)
+			os.Exit(2)
+		}
+		data, _ := json.MarshalIndent(e.allDeclNames(), "", " ")
+		fmt.Println(string(data))
 	default:
 		fmt.Fprintln(os.Stderr, "unknown command", os.Args[1])
 		os.Exit(2)
@@ -300,9 +310,12 @@ func cmdCheck(args []string) {
 			}
 			violations++
 			path := writeReplay(replayDir, *prop, fr, o)
-			suffix := ""
-			if o.Result.Status != "sat" || !replayed(path) {
-				suffix = " no-failing-input-found"
+			suffix := " no-failing-input-found"
+			if ro := tryReplay(repoDir, filepath.Join(work, "replay"), fr, o); ro != nil {
+				addReplayOutcome(path, ro)
+				if ro.Confirmed {
+					suffix = ""
+				}
 			}
 			fmt.Printf("VIOLATION property=%s replay=%s obligation=%q status=%s%s\n", *prop, path, o.Name, o.Result.Status, suffix)
 		}
@@ -376,7 +389,26 @@ func cmdCheck(args []string) {
 	os.RemoveAll(work)
 }
 
-func replayed(path string) bool { return false }
+// addReplayOutcome records the generated test, the model values it was built from and its output.
+func addReplayOutcome(path string, ro *replayOutcome) {
+	data, err := os.ReadFile(path)
+	if err != nil {
+		return
+	}
+	rec := map[string]interface{}{}
+	if json.Unmarshal(data, &rec) != nil {
+		return
+	}
+	rec["replay_confirmed_on_real_code"] = ro.Confirmed
+	rec["replay_model_values"] = ro.Values
+	rec["replay_test_source"] = ro.Test
+	rec["replay_test_output"] = ro.Output
+	if ro.Note != "" {
+		rec["replay_note"] = ro.Note
+	}
+	out, _ := json.MarshalIndent(rec, "", " ")
+	os.WriteFile(path, out, 0o644)
+}
 
 func writeReplay(dir, prop string, fr *FuncResult, o *Obligation) string {
 	os.MkdirAll(dir, 0o755)
@@ -517,4 +549,44 @@ func cmdGround(args []string) {
 	debugGround = true
 	out, cnt := groundQuery(lines[:n-2], pc, goal, 5)
 	fmt.Println("instances:", cnt, "lines:", len(out))
+}
+
+// cmdReplay re-runs the recorded counterexample of a violation file against the tree under
+// verification: exit 1 if the real code still fails the property's oracle, 0 if it passes,
+// 2 if the file carries no executable replay (the obligation and the solver's output are printed).
+func cmdReplay(args []string) {
+	if len(args) < 1 {
+		fmt.Fprintln(os.Stderr, "usage: gpverify replay <replay.json>")
+		os.Exit(2)
+	}
+	data, err := os.ReadFile(args[0])
+	if err != nil {
+		fmt.Fprintln(os.Stderr, err)
+		os.Exit(2)
+	}
+	rec := map[string]interface{}{}
+	if err := json.Unmarshal(data, &rec); err != nil {
+		fmt.Fprintln(os.Stderr, err)
+		os.Exit(2)
+	}
+	fmt.Printf("property=%v obligation=%v\nposition=%v\nclause: %v\nsolver: %v status=%v\n", rec["property"], rec["obligation"], rec["position"], rec["text"], rec["solver"], rec["status"])
+	src, _ := rec["replay_test_source"].(string)
+	if src == "" {
+		fmt.Println("no executable replay for this obligation (no-failing-input-found); named model values:")
+		if m, ok := rec["model_named_inputs"].(map[string]interface{}); ok {
+			for k, v := range m {
+				fmt.Printf("  %s = %v\n", k, v)
+			}
+		}
+		os.Exit(2)
+	}
+	work, _ := os.MkdirTemp("", "gpvreplay")
+	defer os.RemoveAll(work)
+	out, bad := runReplayTest(repoDir, work, src)
+	fmt.Println(out)
+	if bad {
+		fmt.Printf("VIOLATION property=%v replay=%s\n", rec["property"], args[0])
+		os.Exit(1)
+	}
+	fmt.Println("the recorded input no longer fails on this tree")
 }
